@@ -6,16 +6,21 @@ RULE = ("random create/delete/delete-from(wrong parent)/delete_contained_entitie
         "with publishers, subscribers, topics, content-filtered topics, writers and readers; deletes hit live, non-empty, "
         "already deleted and never-created entities; a failed delete is followed by get_qos probes (state unchanged); "
         "non-trivial = at least 3 entities created and at least one delete; distinct by canonical op lines")
-ASSUMPTIONS = ["PublisherAsync/SubscriberAsync::delete_contained_entities are todo!() at the pinned commit and are never called",
+ASSUMPTIONS = ["the tree under check contains fixes/D-tree-1.patch and fixes/D-tree-2.patch (and fixes/D40.patch for the uniqueness invariant in both profiles); the behaviour before is kept as Model/TreeOld.lean + the C36_*_counterexample theorems",
+               "PublisherAsync/SubscriberAsync::delete_contained_entities are todo!() at the pinned commit and are never called",
                "a Topic object is identified by (participant, name): re-creating a topic of the same name revives old Topic objects (API design, not counted)",
                "deleting a writer/reader through a publisher/subscriber that is not its parent: the DDS rule is PreconditionNotMet, the code answers AlreadyDeleted; both accepted (not part of the property statement)"]
 PROFILE = Profile(loops=3, nops=(10, 40), cft=5,
                   weights={"delete": 26, "delete_from": 7, "delete_contained": 4, "probe": 14, "inst": 3, "handle": 1})
 CORPUS = [
-    # exemplar D-tree-1: a content-filtered topic can never be removed, so the participant can never be deleted
-    ["participant P", "topic t P A ki", "cft c P t F - value > 5", "delete c", "delete-contained P", "delete P"],
-    # exemplar D-tree-2: a topic used by a reader through a content-filtered topic is deleted
-    ["participant P", "topic t P A ki", "cft c P t F - value > 5", "subscriber sb P", "reader r sb c", "delete t", "probe r"],
+    # regression D-tree-1 (fixed): a content-filtered topic can be deleted / is cleared, the participant is deletable
+    ["participant P", "topic t P A ki", "cft c P t F - value > 5", "delete c", "delete c", "delete-contained P", "delete P"],
+    ["participant P", "topic t P A ki", "cft c P t F - value > 5", "delete P", "delete-contained P", "delete c", "delete P"],
+    # regression D-tree-2 (fixed): a topic used through / referred to by a content-filtered topic is protected
+    ["participant P", "topic t P A ki", "cft c P t F - value > 5", "subscriber sb P", "reader r sb c", "delete t", "probe r",
+     "delete c", "delete r", "delete t", "delete c", "delete t", "delete c", "delete sb", "delete P"],
+    ["participant P", "topic t P A ki", "topic u P B kb", "cft c1 P t F - value > 5", "cft c2 P u F - value > 5", "subscriber sb P",
+     "reader r sb c2", "delete u", "delete t", "delete c1", "delete r", "delete c2", "delete t", "delete u", "delete sb", "delete P"],
     ["participant P", "publisher pb P", "subscriber sb P", "topic t P A ki", "writer w pb t", "reader r sb t",
      "delete pb", "delete sb", "delete t", "delete P", "probe pb", "probe w", "delete w", "delete w", "probe w", "write w 1 00",
      "delete pb", "probe pb", "writer w2 pb t", "delete r", "delete sb", "delete t", "probe t", "delete P", "probe P", "publisher x P"],
@@ -40,13 +45,13 @@ def run(ctx):
 TECHNIQUE = "Lean 4 theorems per clause over arbitrary states of the entity-tree model + differential correspondence through the deterministic simulator"
 LEVEL_TEXT = ("Kernel-checked Lean theorems, each about one step from an ARBITRARY state of the entity-tree model (hence every step of every "
               "history): C36_publisher_with_writers, C36_subscriber_with_readers, C36_participant_with_entities, C36_topic_used_by_writer, "
-              "C36_topic_used_by_reader, C36_wrong_parent (PreconditionNotMet and the state is returned unchanged); C36_absent_* (every call on "
-              "an entity that no longer resolves answers AlreadyDeleted and changes nothing) together with C36_deleted_*_is_gone (after a "
-              "successful delete the handle resolves to nothing; uses the handle-uniqueness invariant, which every reachable debug-profile "
-              "state satisfies: C36_reachable_good); C36_delete_contained_then_delete_partial (delete_contained_entities leaves the participant "
-              "empty and deletable when it has no content-filtered topic). As-is counter-examples with findings: "
-              "C36_delete_contained_counterexample (a content-filtered topic is never removed), C36_topic_in_use_counterexample (a topic used "
-              "through a content-filtered topic is deleted). The model predicts the return code of every op of random histories run on the real code.")
+              "C36_topic_used_by_reader, C36_topic_referred_by_cft, C36_topic_used_through_cft, C36_cft_used_by_reader, C36_wrong_parent "
+              "(PreconditionNotMet and the state is returned unchanged); C36_absent_* (every call on an entity that no longer resolves answers "
+              "AlreadyDeleted and changes nothing) together with C36_deleted_*_is_gone (after a successful delete the handle resolves to nothing; "
+              "uses the handle-uniqueness invariant, which every reachable state satisfies: C36_reachable_good); "
+              "C36_delete_contained_then_delete (delete_contained_entities leaves ANY participant empty and deletable). The two pre-patch "
+              "failures are kept as regression witnesses on Model/TreeOld.lean (C36_delete_contained_counterexample, "
+              "C36_topic_in_use_counterexample). The model predicts the return code of every op of random histories run on the real code.")
 LEVEL_NOTE = ("Trusted: Lean kernel; the hand-written model of participant_methods.rs / publisher_methods.rs / subscriber_methods.rs / "
               "dcps_participant_factory.rs / dcps_mail_handler.rs; the dsim harness and the Python shadow oracle (an independent statement of "
               "the DDS rules that follows only the implementation's answers).")
